@@ -52,7 +52,9 @@ def model_check(ctx, pid, version, c, workers=8, timeout=3000, tag=""):
         body += "PROPERTIES %s\n" % " ".join(pr["act"])
     body += "CHECK_DEADLOCK FALSE\n"
     cfg = write_cfg(ctx, "MC_ClientLoop_%s_v%d%s" % (pid, version, tag), c, body)
-    res = vlib.run_tlc(ctx, "MC_ClientLoop", cfg=cfg, workers=workers, timeout=timeout, heap="16g", coverage=False)
+    # a run that does not finish within the budget is reported as not exhaustive (evidence: exhaustive false), not as an error
+    budget = min(timeout, 1200 if ctx.quick else 1500)
+    res = vlib.run_tlc(ctx, "MC_ClientLoop", cfg=cfg, workers=workers, timeout=budget, heap="16g", coverage=False, allow_timeout=True)
     return res
 
 
@@ -197,7 +199,7 @@ def run_property(ctx, pid):
         states += res.distinct
         transitions += res.generated
         runs.append({"version": version, "constants": {k: str(v) for k, v in c.items() if k != "Fix"}, "distinct": res.distinct,
-                     "generated": res.generated, "depth": res.depth, "ok": res.ok})
+                     "generated": res.generated, "depth": res.depth, "ok": res.ok, "exhaustive": not res.partial})
         if not res.ok:
             # the model of the current code violates the property: report with TLC's counterexample
             ctx.violation("ClientLoop.tla (model of the current client code, v%d) violates %s" % (version, res.invariant_violated or "an action property"),
